@@ -98,7 +98,7 @@ def standin(rep: Report):
     rnd = random.Random(rep.seed)
     progs = pool.PY_STMTS + pool.XSH_STMTS + ["x = (1,\n\n 2 3)\n", "x = '''a\nb''' y\n", "f('''a\nb\nc''' y)\n", "if a:\n  b\n c\n", "x = 1\n\n\n# c\ny z\n",
                                               "def f(:\n", "class A\n", "x = [1, 2\n", "f(a for a in b, c)\n", "a = 1 +\n", "print 1\n", "x = 'abc\n", "\tx\n y\n",
-                                              "def f[T](): pass\n", "f!((a]\n", "x = '\\x'\n", "a\n\n'\\x'\n", "1 = x\n", "del f()\n", "for 1 in x: pass\n", "x = yield = 1\n",
+                                              "def f[T](): pass\n", "f!((a]\n", "f!(a,\n   (b])\n", "x = 1\ny = f!(a, [b,\n        c)\n", "f!(\n  {k: v)\n)\n", "f!(a,\n  b\n", "x = '\\x'\n", "a\n\n'\\x'\n", "1 = x\n", "del f()\n", "for 1 in x: pass\n", "x = yield = 1\n",
                                               "import a.b as c.d\n", "from . import *, a\n", "with a as 1: pass\n", "try:\n  pass\n", "@\ndef f(): pass\n", "lambda: (yield) = 1\n",
                                               "f(**a, *b)\n", "f(a=1, 2)\n",
                                               # characters str.splitlines() treats as line ends but the tokenizer does not, next to multi-line strings / comments
@@ -206,7 +206,7 @@ def standin(rep: Report):
     rep.standins.append(sf)
 
 
-def lines_obligation(rep: Report):
+def lines_obligation(rep: Report, prop: str = "C11"):
     """Tokenizer.get_lines reads the file it is given at the moment of the error: the builtin open(self._path, encoding=...) and nothing that
     remembers earlier contents of the path (linecache, functools caches, module-level dicts)"""
     rel = "peg_parser/tokenizer.py"
@@ -214,13 +214,13 @@ def lines_obligation(rep: Report):
     try:
         tree = ast.parse(open(os.path.join(REPO, rel), encoding="utf-8").read())
     except (OSError, SyntaxError) as e:
-        rep.undecided("C11.lines.fresh_read", "ambient", f"parse {rel}", "frames", repr(e))
+        rep.undecided(f"{prop}.lines.fresh_read", "ambient", f"parse {rel}", "frames", repr(e))
         return
     fn = next((m for c in ast.walk(tree) if isinstance(c, ast.ClassDef) and c.name == "Tokenizer" for m in c.body
                if isinstance(m, ast.FunctionDef) and m.name == "get_lines"), None)
     desc = "Tokenizer.get_lines (file input) reads the lines from the file as it is now: builtin open(self._path, ...) inside the function, no linecache / memoised reader"
     if fn is None:
-        rep.undecided("C11.lines.fresh_read", "ambient", desc, "frames", "Tokenizer.get_lines not found")
+        rep.undecided(f"{prop}.lines.fresh_read", "ambient", desc, "frames", "Tokenizer.get_lines not found")
         return
     calls = [n for n in ast.walk(fn) if isinstance(n, ast.Call)]
     opens = [n for n in calls if (isinstance(n.func, ast.Name) and n.func.id == "open")
@@ -230,9 +230,9 @@ def lines_obligation(rep: Report):
     deco = [ast.unparse(d) for d in fn.decorator_list]
     ok = len(opens) == 1 and "self._path" in ast.unparse(opens[0]) and not foreign and not deco
     if ok:
-        rep.ok("C11.lines.fresh_read", "ambient", desc, "frames", function=f"{rel}:Tokenizer.get_lines")
+        rep.ok(f"{prop}.lines.fresh_read", "ambient", desc, "frames", function=f"{rel}:Tokenizer.get_lines")
     else:
-        rep.fail("C11.lines.fresh_read", "ambient", desc, "frames", f"open() calls: {[ast.unparse(o)[:60] for o in opens]}; other readers: {foreign}; decorators: {deco}",
+        rep.fail(f"{prop}.lines.fresh_read", "ambient", desc, "frames", f"open() calls: {[ast.unparse(o)[:60] for o in opens]}; other readers: {foreign}; decorators: {deco}",
                  witness={"opens": [ast.unparse(o) for o in opens], "foreign": foreign, "decorators": deco}, function=f"{rel}:Tokenizer.get_lines")
 
 
